@@ -520,13 +520,16 @@ func (s *Service) authInterceptor(w http.ResponseWriter, r *http.Request) bool {
 }
 
 func roleInterceptor(w http.ResponseWriter, r *http.Request) bool {
+	userName := r.Header.Get(usernameHeaderKey)
+	u := auth.Get(userName)
+
 	// 流查询方法，无需管理员身份
-	if r.Method == http.MethodGet && strings.HasPrefix(r.URL.Path, "/api/v1/streams") {
+	// (but the account the token was issued to must still exist: a token outlives
+	// the deletion of its user by up to two hours)
+	if u != nil && r.Method == http.MethodGet && strings.HasPrefix(r.URL.Path, "/api/v1/streams") {
 		return true
 	}
 
-	userName := r.Header.Get(usernameHeaderKey)
-	u := auth.Get(userName)
 	if u == nil || !u.Admin {
 		http.Error(w /*http.StatusText(http.StatusForbidden)*/, "访问被拒绝，请用管理员登录", http.StatusForbidden)
 		return false
